@@ -154,6 +154,11 @@ func runProp(ps *PropSpec, repo, verif, tier string, seed int, replay string) (c
 				continue
 			}
 			base := fi.Name[strings.LastIndex(fi.Name, ".")+1:]
+			if i := strings.Index(fi.Name, "Bad_"+tag+"_"); i >= 0 {
+				base = fi.Name[i:]
+			} else if i := strings.Index(fi.Name, "Good_"+tag+"_"); i >= 0 {
+				base = fi.Name[i:]
+			}
 			if strings.HasPrefix(base, "Bad_"+tag+"_") {
 				ctl.Expect = append(ctl.Expect, ctlExpect{Rule: rule, Func: fi.Name, Bad: true})
 				nbad++
